@@ -866,6 +866,17 @@ fn run(op: &Value) -> Value {
                     }
                 }};
             }
+            if ty == "bytes" {
+                // binary map key: the key text is Base64; read back as bytes it must be the decoded bytes, as through plain JSON
+                let raw = hex(n);
+                let text = base64_std(&raw);
+                let doc = format!("{{\"{}\":1}}", text);
+                let direct = conjure_serde::json::client_from_str::<std::collections::BTreeMap<bytes::Bytes, i32>>(&doc).ok().and_then(|m| m.keys().next().cloned());
+                return match conjure_serde::json::client_from_str::<Any>(&doc).map_err(|e| e.to_string()).and_then(|a| a.deserialize_into::<std::collections::BTreeMap<bytes::Bytes, i32>>().map_err(|e| e.to_string())) {
+                    Ok(m) => json!({"same": m.len() == 1 && m.keys().next().map(|k| k.as_ref() == &raw[..]).unwrap_or(false) && direct.as_ref().map(|k| k.as_ref() == &raw[..]).unwrap_or(false), "key_hex": m.keys().next().map(|k| tohex(k.as_ref()))}),
+                    Err(e) => json!({"same": false, "err": e}),
+                };
+            }
             match ty {
                 "i8" => k!(i8), "i16" => k!(i16), "i32" => k!(i32), "i64" => k!(i64), "i128" => k!(i128),
                 "u8" => k!(u8), "u16" => k!(u16), "u32" => k!(u32), "u64" => k!(u64), "u128" => k!(u128),
@@ -1113,6 +1124,19 @@ fn run(op: &Value) -> Value {
         }
         _ => json!({"error": format!("unknown op {}", name)}),
     }
+}
+
+fn base64_std(b: &[u8]) -> String {
+    const T: &[u8; 64] = b"ABCDEFGHIJKLMNOPQRSTUVWXYZabcdefghijklmnopqrstuvwxyz0123456789+/";
+    let mut out = String::new();
+    for c in b.chunks(3) {
+        let n = (c[0] as u32) << 16 | (*c.get(1).unwrap_or(&0) as u32) << 8 | *c.get(2).unwrap_or(&0) as u32;
+        out.push(T[(n >> 18) as usize & 63] as char);
+        out.push(T[(n >> 12) as usize & 63] as char);
+        out.push(if c.len() > 1 { T[(n >> 6) as usize & 63] as char } else { '=' });
+        out.push(if c.len() > 2 { T[n as usize & 63] as char } else { '=' });
+    }
+    out
 }
 
 fn main() {
